@@ -30,7 +30,8 @@ def gen_arb(rng, tier):
         feat = [f for f in ALL_FEATURES if (f in ("err", "rty") and f in afeat) or rng.random() < 0.5]
         intrs.append({"gran": ig, "features": feat,
                       "behaviour": rng.choice(["random", "random", "sticky", "greedy", "locker", "polite"])})
-    case = {"n": n, "aw": rng.choice([4, 6, 8, 16, 30]), "dw": dw, "gran": gran, "features": afeat, "intrs": intrs,
+    # every initiator's adr carries its index in the low bits: the address must be wide enough for that
+    case = {"n": n, "aw": max(rng.choice([4, 6, 8, 16, 30]), max(1, (n - 1).bit_length())), "dw": dw, "gran": gran, "features": afeat, "intrs": intrs,
             "scenario": "normal", "cycles": (300 if tier == "quick" else 900) * (8 if rng.random() < 0.04 else 1)}
     x = rng.random()
     if x < 0.06 and n >= 2:
